@@ -84,15 +84,21 @@ Definition wf_spec (sp : rspec) : Prop :=
   | SSuffix n => 0 <= n
   end.
 
+(* with the zero-suffix defect off the length-less parser skips a suffix of length 0 *)
+Definition keeps (f : bool) (sp : rspec) : bool :=
+  match sp with SSuffix n => f || negb (n =? 0) | _ => true end.
+Definition prwl_of (f : bool) (sp : rspec) : pres brange :=
+  if keeps f sp then POk (brange_of sp) else PSkip.
+
 Definition pr_of_sat (size : Z) (sp : rspec) : pres (Z * Z) :=
   match sat size sp with Some x => POk (sl x) | None => PNoOv end.
 
-Lemma piece_agree size p : 0 <= size ->
+Lemma piece_agree f size p : 0 <= size ->
   match spec_piece p with
-  | PSkip => prwl_piece p = PSkip /\ pr_piece false size p = PSkip
-  | PErr => prwl_piece p = PErr /\ (pr_piece false size p = PErr \/ pr_piece false size p = PNoOv)
+  | PSkip => prwl_piece f p = PSkip /\ pr_piece false size p = PSkip
+  | PErr => prwl_piece f p = PErr /\ (pr_piece false size p = PErr \/ pr_piece false size p = PNoOv)
   | PNoOv => False
-  | POk sp => wf_spec sp /\ prwl_piece p = POk (brange_of sp) /\ pr_piece false size p = pr_of_sat size sp
+  | POk sp => wf_spec sp /\ prwl_piece f p = prwl_of f sp /\ pr_piece false size p = pr_of_sat size sp
   end.
 Proof.
   intro Hsz. unfold spec_piece, prwl_piece, pr_piece.
@@ -105,7 +111,7 @@ Proof.
     destruct (parse_int (e1 :: en')) as [n|]; [|split; [reflexivity|left; reflexivity]].
     destruct (n <? 0) eqn:En; [split; [reflexivity|left; reflexivity]|].
     apply Z.ltb_ge in En.
-    split; [exact En|]. split; [reflexivity|].
+    split; [exact En|]. split; [unfold prwl_of, keeps, brange_of; destruct f, (n =? 0); reflexivity|].
     unfold pr_of_sat, sat, sl. cbn [negb andb fst snd].
     destruct (size <? n) eqn:E1; [apply Z.ltb_lt in E1|apply Z.ltb_ge in E1].
     + destruct (size =? 0) eqn:E2; [apply Z.eqb_eq in E2|apply Z.eqb_neq in E2].
@@ -203,37 +209,45 @@ Qed.
 Definition unsat (size : Z) (sp : rspec) : bool := match sat size sp with None => true | Some _ => false end.
 Definition has_unsat (size : Z) (sps : list rspec) : bool := existsb (unsat size) sps.
 
-Lemma loop_agree size : 0 <= size -> forall ps sps, spec_loop ps = Some sps ->
+Lemma filter_wf f sps : Forall wf_spec sps -> Forall wf_spec (filter (keeps f) sps).
+Proof.
+  intro H. apply Forall_forall. intros x Hx. apply filter_In in Hx as [Hx _].
+  rewrite Forall_forall in H. auto.
+Qed.
+
+Lemma loop_agree f size : 0 <= size -> forall ps sps, spec_loop ps = Some sps ->
   Forall wf_spec sps /\
-  prwl_loop ps = Some (map brange_of sps) /\
+  prwl_loop f ps = Some (map brange_of (filter (keeps f) sps)) /\
   pr_loop false size ps = Some (map sl (sats size sps), has_unsat size sps).
 Proof.
   intro Hsz. induction ps as [|p r IH]; cbn [spec_loop prwl_loop pr_loop]; intros sps H.
   - inversion H; subst. repeat split. constructor.
-  - pose proof (piece_agree size p Hsz) as Hp.
+  - pose proof (piece_agree f size p Hsz) as Hp.
     destruct (spec_piece p) as [| | |sp] eqn:Esp.
     + destruct Hp as [Hp1 Hp2]. rewrite Hp1, Hp2. auto.
     + discriminate.
     + destruct Hp.
     + destruct Hp as [Hwf [Hp1 Hp2]]. rewrite Hp1, Hp2.
       destruct (spec_loop r) as [l|] eqn:El; [|discriminate]. inversion H; subst.
-      destruct (IH l eq_refl) as [IH0 [IH1 IH2]]. rewrite IH1, IH2.
-      split; [constructor; assumption|]. split; [reflexivity|].
-      unfold pr_of_sat, has_unsat. cbn [sats existsb].
-      assert (Hu : unsat size sp = match sat size sp with None => true | Some _ => false end) by reflexivity.
-      rewrite Hu. destruct (sat size sp) as [x|]; reflexivity.
+      destruct (IH l eq_refl) as [IH0 [IH1 IH2]]. rewrite IH2.
+      split; [constructor; assumption|]. split.
+      * unfold prwl_of. cbn [filter]. destruct (keeps f sp); rewrite IH1; reflexivity.
+      * unfold pr_of_sat, has_unsat. cbn [sats existsb].
+        assert (Hu : unsat size sp = match sat size sp with None => true | Some _ => false end) by reflexivity.
+        rewrite Hu. destruct (sat size sp) as [x|]; reflexivity.
 Qed.
 
-Lemma loop_err ps : spec_loop ps = None -> prwl_loop ps = None.
+Lemma loop_err f ps : spec_loop ps = None -> prwl_loop f ps = None.
 Proof.
   induction ps as [|p r IH]; cbn [spec_loop prwl_loop]; intro H; [discriminate|].
-  pose proof (piece_agree 0 p (Z.le_refl 0)) as Hp.
+  pose proof (piece_agree f 0 p (Z.le_refl 0)) as Hp.
   destruct (spec_piece p) as [| | |sp] eqn:Esp.
   - destruct Hp as [Hp1 _]. rewrite Hp1. auto.
   - destruct Hp as [Hp1 _]. rewrite Hp1. reflexivity.
   - destruct Hp.
   - destruct Hp as [_ [Hp1 _]]. rewrite Hp1.
-    destruct (spec_loop r); [discriminate|]. rewrite IH; reflexivity.
+    destruct (spec_loop r); [discriminate|]. unfold prwl_of.
+    destruct (keeps f sp); rewrite IH; reflexivity.
 Qed.
 
 Definition pr_of_specs (size : Z) (sps : list rspec) : prres :=
@@ -244,18 +258,19 @@ Definition pr_of_specs (size : Z) (sps : list rspec) : prres :=
 
 (** Whenever the header is a valid byte-range set, both Go parsers accept it; the length-less one returns the
     specs as they are, the one with the length returns exactly the satisfiable specs, clamped to the file. *)
-Lemma parsers_agree s sps size : 0 <= size -> s <> [] -> parse_specs s = Some sps ->
-  Forall wf_spec sps /\ prwl s = Some (map brange_of sps) /\ pr false s size = pr_of_specs size sps.
+Lemma parsers_agree f s sps size : 0 <= size -> s <> [] -> parse_specs s = Some sps ->
+  Forall wf_spec sps /\ prwl f s = Some (map brange_of (filter (keeps f) sps)) /\
+  pr false s size = pr_of_specs size sps.
 Proof.
   intros Hsz Hne. unfold parse_specs, prwl, pr, pr_of_specs.
   destruct s as [|c r]; [congruence|].
   destruct (strip_prefix bytes_eq (c :: r)) as [rest|]; [|discriminate].
-  intro H. destruct (loop_agree size Hsz _ _ H) as [H0 [H1 H2]]. rewrite H1, H2.
+  intro H. destruct (loop_agree f size Hsz _ _ H) as [H0 [H1 H2]]. rewrite H1, H2.
   split; [exact H0|]. split; [reflexivity|].
   destruct (sats size sps) as [|x l]; cbn [map]; [destruct (has_unsat size sps)|]; reflexivity.
 Qed.
 
-Lemma parsers_agree_err s : s <> [] -> parse_specs s = None -> prwl s = None.
+Lemma parsers_agree_err f s : s <> [] -> parse_specs s = None -> prwl f s = None.
 Proof.
   intros Hne. unfold parse_specs, prwl. destruct s as [|c r]; [congruence|].
   destruct (strip_prefix bytes_eq (c :: r)) as [rest|]; [|reflexivity].
@@ -342,7 +357,7 @@ Proof.
     destruct (q_ifr q); cbn [pr sum_len]; rewrite Hs; reflexivity.
   - destruct (q_ifr q) eqn:Eifr.
     1,2: (* the header counts *)
-      destruct (parsers_agree (c :: r) sps (q_size q) Hsz ltac:(discriminate) Hsp) as [Hwf [_ Hpr]];
+      destruct (parsers_agree false (c :: r) sps (q_size q) Hsz ltac:(discriminate) Hsp) as [Hwf [_ Hpr]];
       rewrite Hpr; unfold pr_of_specs;
       destruct sps as [|sp0 sps'];
       [ (* no spec at all *)
@@ -371,13 +386,15 @@ Proof.
   destruct (q_inm q) eqn:Hinm; [unfold ideal; rewrite Hinm; reflexivity|].
   destruct (q_meth q) eqn:Em.
   - (* GET *)
-    assert (Hw : Forall wf_spec sps /\ prwl (q_range q) = Some (map brange_of sps)).
+    cbn [f_suffix0 flags_off].
+    assert (Hw : Forall wf_spec sps /\ prwl false (q_range q) = Some (map brange_of (filter (keeps false) sps))).
     { unfold specs_of in Hsp. destruct (q_range q) as [|c r] eqn:Er.
       - inversion Hsp; subst. split; [constructor|reflexivity].
-      - destruct (parsers_agree (c :: r) sps (q_size q) Hsz ltac:(discriminate) Hsp) as [H0 [H1 _]]. auto. }
+      - destruct (parsers_agree false (c :: r) sps (q_size q) Hsz ltac:(discriminate) Hsp) as [H0 [H1 _]]. auto. }
     destruct Hw as [Hwf Hprwl]. rewrite Hprwl.
-    destruct (seek_pos_off (q_size q) sps Hwf Hsz) as [p [Hs [Hp Hp0]]]. rewrite Hs.
-    apply serve_off_ideal; assumption.
+    destruct (seek_pos_off (q_size q) _ (filter_wf false sps Hwf) Hsz) as [p [Hs [Hp Hp0]]]. rewrite Hs.
+    apply serve_off_ideal; try assumption.
+    intro Hnil. apply Hp0. rewrite Hnil. reflexivity.
   - apply serve_off_ideal; try assumption; [lia|reflexivity].
 Qed.
 
@@ -387,7 +404,7 @@ Lemma model_invalid_get fl q :
 Proof.
   intros Hinm Hm Hsp. unfold model. rewrite Hinm, Hm.
   unfold specs_of in Hsp. destruct (q_range q) as [|c r] eqn:Er; [discriminate|].
-  rewrite (parsers_agree_err (c :: r) ltac:(discriminate) Hsp). reflexivity.
+  rewrite (parsers_agree_err (f_suffix0 fl) (c :: r) ltac:(discriminate) Hsp). reflexivity.
 Qed.
 
 (** ---------- shapes ---------- *)
@@ -433,7 +450,7 @@ Lemma specs_of_wf q sps : specs_of q = Some sps -> Forall wf_spec sps.
 Proof.
   unfold specs_of. destruct (q_range q) as [|c r] eqn:Er; intro H.
   - inversion H. constructor.
-  - destruct (parsers_agree (c :: r) sps 0 (Z.le_refl 0) ltac:(discriminate) H) as [H0 _]. exact H0.
+  - destruct (parsers_agree false (c :: r) sps 0 (Z.le_refl 0) ltac:(discriminate) H) as [H0 _]. exact H0.
 Qed.
 
 (* HEAD with a header that is not a valid byte-range set: parseRange alone decides; whatever it accepts lies
